@@ -369,6 +369,7 @@ struct vp_in {
     uint8_t op[NOPS];
     elem_t item[NOPS];
     uint8_t junk;
+    uint8_t stale[4]; /* what the instance object held before _init (earlier use, stack garbage) */
 };
 VP_DECLARE_INPUT();
 
@@ -386,6 +387,11 @@ void harness(void)
         mem[i] = in.junk;
     elem_t *data = mem + (MEMN - cap);
     ring_t r;
+    r.data = NULL;
+    r.head = in.stale[0];
+    r.tail = in.stale[1];
+    r.datasize = in.stale[2];
+    r.override_if_full = (in.stale[3] & 1) != 0;
     struct queue q;
     unsigned wraps = 0, evictions = 0, drops = 0, clears_then_put = 0;
     bool cleared = false;
@@ -396,8 +402,8 @@ void harness(void)
     q.overwrite = false;
     for (size_t i = 0; i < CAP; ++i)
         q.e[i] = 0;
-    /* the mode of a fresh buffer is not fixed by the property: pin it */
-    RB(override_if_full)(&r, false);
+    /* a history without override-mode change has not entered override mode:
+     * a fresh buffer drops on full, whatever the object held before _init */
     CHECK_QUERIES(&r, &q, "hist.fresh");
 
     unsigned puts = 0;
